@@ -281,6 +281,8 @@ Clauses(e) ==
     [] e.op = "peek" -> PeekClauses(e)
     [] e.op = "prim" -> PrimClauses(e)
     [] e.op = "calc" -> CalcClauses(e)
+    [] e.op = "regfactory" ->      \* the tables this run is judged against contain the registration the application made
+         IF Lookup(e.from, e.bytes) = e.t THEN {} ELSE {<<"C12.registration-not-in-tables", "none">>}
     [] OTHER -> {}
 
 ---------------------------------------------------------------------------
